@@ -163,7 +163,7 @@ def _sweep_combos(f):
 
 
 def oracle(case, real, model):
-    if real in ("[8]", "[9]") or model in ("[8]", "[9]"):
+    if real in ("[-8888]", "[-9999]") or model in ("[-8888]", "[-9999]"):
         return "executor rejected the request (malformed case line): real %s model %s" % (real, model)
     if not case.line.startswith("hdr.sweep_") or real == model:
         return None
